@@ -103,7 +103,7 @@ var cmechs = []cmech{
 }
 
 // ConcPlacements: who writes and who reads.
-var ConcPlacements = []string{"parentBefore>child", "parentAfter>child", "child>parent", "child>child2", "local"}
+var ConcPlacements = []string{"parentBefore>child", "parentAfter>child", "child>parent", "child>child2", "local", "parentLoop>child"}
 
 // ConcSyncs: synchronisation used.
 var ConcSyncs = []string{"none", "join", "mutex"}
@@ -168,6 +168,10 @@ func concCase(m *cmech, pl, sy string, captured bool) ConcCase {
 	case "child>child2":
 		child1 = writer()
 		child2 = reader()
+	case "parentLoop>child":
+		// the parent writes and then launches a reader, twice in a loop: the second write races with the first reader
+		// (the leak happens AFTER the access in the loop body and only changes the status of the object)
+		child1 = reader()
 	case "local":
 		// everything in the parent; a goroutine exists but shares nothing
 		parentPre = append(writer(), reader()...)
@@ -237,6 +241,7 @@ func concCase(m *cmech, pl, sy string, captured bool) ConcCase {
 		body = append(body, cls("done := make(chan bool, 2)", "done := vsched.MakeChan[bool](2)"))
 	}
 	body = append(body, parentPre...)
+	inLoop := pl == "parentLoop>child"
 	launch := func(name string, b []cline) {
 		if captured {
 			body = append(body, cls("go func() {", "vsched.Go(func() {"))
@@ -250,7 +255,18 @@ func concCase(m *cmech, pl, sy string, captured bool) ConcCase {
 			body = append(body, cls("go "+call, "vsched.Go(func() { "+call+" })"))
 		}
 	}
-	launch("child1", child1)
+	if inLoop {
+		outer := body
+		body = nil
+		body = append(body, writer()...)
+		launch("child1", child1)
+		loopBody := body
+		body = append(outer, cl("for it := 0; it < 2; it++ {"))
+		body = append(body, ind(loopBody, 1)...)
+		body = append(body, cl("}"))
+	} else {
+		launch("child1", child1)
+	}
 	if child2 != nil {
 		launch("child2", child2)
 	}
@@ -265,6 +281,9 @@ func concCase(m *cmech, pl, sy string, captured bool) ConcCase {
 		}
 		if pl == "child>parent" {
 			n--
+		}
+		if inLoop {
+			n = 2
 		}
 		for k := 0; k < n; k++ {
 			body = append(body, wait)
